@@ -13,11 +13,11 @@ import (
 	"time"
 
 	mrserver "github.com/alicebob/miniredis/v2/server"
+	envoy "github.com/envoyproxy/go-control-plane/envoy/service/auth/v3"
 	corev1 "k8s.io/api/core/v1"
 	metav1 "k8s.io/apimachinery/pkg/apis/meta/v1"
 	"k8s.io/apimachinery/pkg/types"
 	ctrl "sigs.k8s.io/controller-runtime"
-	envoy "github.com/envoyproxy/go-control-plane/envoy/service/auth/v3"
 
 	"github.com/istio-ecosystem/authservice/internal/oidc"
 )
@@ -710,7 +710,6 @@ func runFile(in, out, tmp string) (int, error) {
 	}
 	return n, sc.Err()
 }
-
 
 func hasDuplicateChainNames(c CfgSpec) bool {
 	seen := map[string]bool{}
